@@ -2,10 +2,12 @@
    Directives in force: those of ExtrOcamlBasic only (bool, option, unit, list, prod, sumbool,
    sumor -> OCaml types); Z, positive, N, nat stay inductive; no Extract Constant. *)
 Require Extraction. Require ExtrOcamlBasic.
-Require Import PyBase GenText Text TextSpec GenTape Tape K7 GenBasic Basic Mo5Basic.
+Require Import PyBase GenText Text TextSpec GenTape Tape K7 GenBasic Basic Mo5Basic GenDisk Disk ThomsonDos.
 Extraction Language OCaml.
 Extraction "model.ml" nl_run prettier_run pretty_spec nl_spec chomp
   nl_default_start nl_default_increment nl_default_width
   tar_create tar_list tar_extract k7_decode doc_entry doc_path k7_encoded_size k7_file_image
   tokenize_program lst_to_ascii ascii_to_lst detok upper_outside_strings ref_encode ref_source line_number line_text
-  readlines_file readlines_stdin program_records.
+  readlines_file readlines_stdin program_records
+  disk_create disk_add disk_list disk_extract load_image save_image set_payload
+  sides_of_raw side_geometry fsck_read fsck_strict dos_files fat count_status st_free st_reserved sd_slot_ok doc_disk_kind cat_entries e_live.
